@@ -280,6 +280,8 @@ def generate() -> list[str]:
     w("/-- attribute keys of every `attrs = {..}` literal, `attrSet/attrJoin/attrPush(\"k\", ..)` -/")
     w("def attrKeys : List String := " + llist(keys))
     w("")
+    w("/-- code points for which `str.isspace()` holds on this interpreter (what `str.strip()` removes) -/")
+    w("def pyWhitespace : List Nat := " + llist([cp for cp in range(0x110000) if chr(cp).isspace()], str))
     pins, callers = scan_pins()
     w("/-- literal each block rule assigns to `state.parentType` while it runs (source scan of the rule functions) -/")
     w("def blockPins : List (String × String) := " + llist(pins, lambda r: f"({lstr(r[0])}, {lstr(r[1])})"))
